@@ -202,6 +202,42 @@ def run(out):
                 and not mido.backend.loaded and mido.get_ioport_names() == ['b', 'd'] and mido.backend.loaded
             if not ok:
                 out.failures.append(('set_backend', 'set_backend did not rebind the top-level open_*/get_* functions to the chosen backend', {'component': 'set_backend'}))
+            # every history of up to 4 set_backend / use steps over two modules and two APIs: after each set_backend the top-level
+            # functions belong to a backend with exactly the requested module and API, and calls through them carry that API
+            ma, mb = ensure_module(4, 1, 1), ensure_module(5, 1, 1)
+            steps = [('set', ma, None, False), ('set', ma, 'tok5', False), ('set', ma, 'tok6', True), ('set', mb, 'tok5', False),
+                     ('use', 'open_input'), ('use', 'get_input_names')]
+            nh = 0
+            for ln in (1, 2, 3, 4):
+                for hist in itertools.product(steps, repeat=ln):
+                    if hist[0][0] != 'set' or hist[-1][0] != 'use':
+                        continue
+                    nh += 1
+                    for k in list(sys.modules):
+                        if k.startswith('verif_fake_backend_'):
+                            del sys.modules[k]
+                    want = None
+                    for st in hist:
+                        if st[0] == 'set':
+                            _, mod, api, load = st
+                            mido.set_backend(mod if api is None else mod + '/' + api, load=load)
+                            want = (mod, api)
+                            ok = all(getattr(mido, k).__self__ is mido.backend for k in saved) and (mido.backend.name, mido.backend.api) == want
+                        else:
+                            mark = len(builtins._verif_backend_log)
+                            if st[1] == 'open_input':
+                                mido.open_input('x')
+                            else:
+                                mido.get_input_names()
+                            ev = [e for e in builtins._verif_backend_log[mark:] if e[0] != 'import']
+                            ok = len(ev) == 1 and ev[0][2].get('api') == want[1] and ('api' in ev[0][2]) == (want[1] is not None) \
+                                and mido.backend.module.__name__ == want[0]
+                        if not ok:
+                            out.failures.append(('set_backend', 'after the history %r the top-level functions do not use backend %r' % (hist, want),
+                                                 {'component': 'set_backend', 'history': repr(hist)}))
+                            break
+            out.evaluations += nh
+            out.components['set_backend histories (implementation against the property statement)'] = {'cases': nh}
         finally:
             for k, v in saved.items():
                 setattr(mido, k, v)
